@@ -1,65 +1,381 @@
-import zlib, struct
-class Bad(Exception): pass
+"""Independent readers for the raster and text outputs: PNG, PBM (P1/P4), PPM (P6),
+PAM (P7), XBM, XPM, TXT, ANSI terminal, half-block terminal. Each returns a dict
+with 'w', 'h' and 'px' (rows of RGBA tuples, or of symbols for the text kinds).
+Imports nothing from segno."""
+import re
+import struct
+import zlib
+
+
+class Bad(Exception):
+    pass
+
+
 def read_png(data):
-    if data[:8] != b'\x89PNG\r\n\x1a\n': raise Bad('sig')
-    p = 8; chunks = []
+    if data[:8] != b'\x89PNG\r\n\x1a\n':
+        raise Bad('PNG signature')
+    p = 8
+    chunks = []
     while p < len(data):
-        ln, = struct.unpack('>I', data[p:p+4]); typ = data[p+4:p+8]; body = data[p+8:p+8+ln]
-        crc, = struct.unpack('>I', data[p+8+ln:p+12+ln])
-        if zlib.crc32(typ + body) & 0xffffffff != crc: raise Bad('crc ' + typ.decode())
-        chunks.append((typ, body)); p += 12 + ln
+        if p + 12 > len(data):
+            raise Bad('truncated chunk')
+        ln, = struct.unpack('>I', data[p:p + 4])
+        typ = data[p + 4:p + 8]
+        body = data[p + 8:p + 8 + ln]
+        if len(body) != ln or p + 12 + ln > len(data):
+            raise Bad('truncated chunk ' + typ.decode('latin1'))
+        crc, = struct.unpack('>I', data[p + 8 + ln:p + 12 + ln])
+        if zlib.crc32(typ + body) & 0xffffffff != crc:
+            raise Bad('CRC of chunk ' + typ.decode('latin1'))
+        chunks.append((typ, body))
+        p += 12 + ln
     names = [c[0] for c in chunks]
-    if names[0] != b'IHDR' or names[-1] != b'IEND': raise Bad('order %r' % names)
+    if not names or names[0] != b'IHDR' or names[-1] != b'IEND' or names.count(b'IEND') != 1 or names.count(b'IHDR') != 1:
+        raise Bad('chunk order %r' % names)
+    if len(chunks[0][1]) != 13:
+        raise Bad('IHDR length')
     w, h, depth, ctype, comp, flt, il = struct.unpack('>2I5B', chunks[0][1])
-    if (comp, flt, il) != (0, 0, 0): raise Bad('ihdr')
-    if ctype not in (0, 3) or depth not in (1, 2, 4, 8): raise Bad('type/depth')
-    plte = trns = None; idat = b''; phys = None
+    if (comp, flt, il) != (0, 0, 0):
+        raise Bad('IHDR compression/filter/interlace')
+    if ctype not in (0, 3) or depth not in (1, 2, 4, 8):
+        raise Bad('colour type %d depth %d' % (ctype, depth))
+    plte = trns = None
+    idat = b''
+    phys = None
+    seen_idat = False
     for typ, body in chunks[1:-1]:
         if typ == b'PLTE':
-            if idat or trns is not None: raise Bad('PLTE order')
-            plte = [tuple(body[i:i+3]) for i in range(0, len(body), 3)]
+            if seen_idat or trns is not None or plte is not None:
+                raise Bad('PLTE order')
+            if len(body) % 3 or not 1 <= len(body) // 3 <= (1 << depth):
+                raise Bad('PLTE size %d for depth %d' % (len(body), depth))
+            plte = [tuple(body[i:i + 3]) for i in range(0, len(body), 3)]
         elif typ == b'tRNS':
-            if idat: raise Bad('tRNS after IDAT')
+            if seen_idat or trns is not None:
+                raise Bad('tRNS order')
             trns = body
-        elif typ == b'IDAT': idat += body
-        elif typ == b'pHYs': phys = struct.unpack('>LLB', body)
-        else: raise Bad('chunk ' + typ.decode())
-    if ctype == 3 and plte is None: raise Bad('no PLTE')
-    raw = zlib.decompress(idat)
+        elif typ == b'IDAT':
+            if seen_idat and names[names.index(b'IDAT'):].count(b'IDAT') != len([n for n in names if n == b'IDAT']):
+                raise Bad('IDAT not consecutive')
+            seen_idat = True
+            idat += body
+        elif typ == b'pHYs':
+            if seen_idat or len(body) != 9:
+                raise Bad('pHYs')
+            phys = struct.unpack('>LLB', body)
+        else:
+            raise Bad('unexpected chunk ' + typ.decode('latin1'))
+    if not seen_idat:
+        raise Bad('no IDAT')
+    if ctype == 3 and plte is None:
+        raise Bad('indexed colour without PLTE')
+    if ctype == 0 and plte is not None:
+        raise Bad('PLTE in greyscale image')
+    if trns is not None:
+        if ctype == 3 and len(trns) > len(plte):
+            raise Bad('tRNS longer than palette')
+        if ctype == 0 and len(trns) != 2:
+            raise Bad('tRNS length for greyscale')
+    try:
+        d = zlib.decompressobj()
+        raw = d.decompress(idat) + d.flush()
+        if not d.eof or d.unused_data:
+            raise Bad('zlib stream incomplete or trailing data')
+    except zlib.error as ex:
+        raise Bad('zlib: %s' % ex)
     stride = (w * depth + 7) // 8
-    if len(raw) != (stride + 1) * h: raise Bad('idat length %d != %d' % (len(raw), (stride + 1) * h))
-    rows = []; prev = bytes(stride)
+    if len(raw) != (stride + 1) * h:
+        raise Bad('image data length %d != %d' % (len(raw), (stride + 1) * h))
+    rows = []
+    prev = bytes(stride)
+    filters = set()
     for y in range(h):
-        f = raw[y * (stride + 1)]; line = raw[y * (stride + 1) + 1:(y + 1) * (stride + 1)]
-        if f == 0: cur = line
-        elif f == 2: cur = bytes((a + b) & 0xff for a, b in zip(line, prev))
-        else: raise Bad('filter %d' % f)
+        f = raw[y * (stride + 1)]
+        line = raw[y * (stride + 1) + 1:(y + 1) * (stride + 1)]
+        filters.add(f)
+        if f == 0:
+            cur = line
+        elif f == 2:
+            cur = bytes((a + b) & 0xff for a, b in zip(line, prev))
+        elif f == 1:
+            cur = bytearray(line)
+            for i in range(1, len(cur)):
+                cur[i] = (cur[i] + cur[i - 1]) & 0xff
+            cur = bytes(cur)
+        else:
+            raise Bad('filter type %d' % f)
         prev = cur
         vals = []
         for byte in cur:
             for k in range(8 // depth):
                 vals.append((byte >> (8 - depth * (k + 1))) & ((1 << depth) - 1))
-        pad = vals[w:]
         rows.append(vals[:w])
     px = []
+    gtrns = struct.unpack('>H', trns)[0] if (trns is not None and ctype == 0) else None
     for r in rows:
         out = []
         for v in r:
             if ctype == 3:
-                if v >= len(plte): raise Bad('index %d outside palette' % v)
+                if v >= len(plte):
+                    raise Bad('index %d outside palette of %d' % (v, len(plte)))
                 a = trns[v] if trns is not None and v < len(trns) else 255
                 out.append(plte[v] + (a,))
             else:
                 g = v * 255 // ((1 << depth) - 1)
-                a = 255
-                if trns is not None and struct.unpack('>H', trns)[0] == v: a = 0
-                out.append((g, g, g, a))
+                out.append((g, g, g, 0 if gtrns == v else 255))
         px.append(out)
-    return dict(w=w, h=h, depth=depth, ctype=ctype, px=px, phys=phys, ncolors=len(plte) if plte else 2)
-def read_ppm(data):
-    import re
-    m = re.match(rb'^P6 #[^\n]*\n(\d+) (\d+) 255\n', data)
-    if not m: raise Bad('ppm header')
-    w, h = int(m.group(1)), int(m.group(2)); body = data[m.end():]
-    if len(body) != w * h * 3: raise Bad('ppm length')
-    return dict(w=w, h=h, px=[[tuple(body[(y * w + x) * 3:(y * w + x) * 3 + 3]) + (255,) for x in range(w)] for y in range(h)])
+    return {'w': w, 'h': h, 'depth': depth, 'ctype': ctype, 'px': px, 'phys': phys, 'filters': sorted(filters),
+            'ncolors': len(plte) if plte else 2}
+
+
+def _pnm_tokens(data, n):
+    """Reads n whitespace separated header tokens (comments skipped); returns (tokens, offset after the single
+    whitespace byte that follows the last token)."""
+    toks = []
+    p = 0
+    while len(toks) < n:
+        while p < len(data) and data[p:p + 1].isspace():
+            p += 1
+        if data[p:p + 1] == b'#':
+            while p < len(data) and data[p:p + 1] != b'\n':
+                p += 1
+            continue
+        q = p
+        while q < len(data) and not data[q:q + 1].isspace() and data[q:q + 1] != b'#':
+            q += 1
+        if q == p:
+            raise Bad('PNM header truncated')
+        toks.append(data[p:q])
+        p = q
+    if data[p:p + 1] == b'#':
+        # comment directly after the last token: runs to end of line
+        while p < len(data) and data[p:p + 1] != b'\n':
+            p += 1
+    if not data[p:p + 1].isspace():
+        raise Bad('no whitespace after PNM header')
+    return toks, p + 1
+
+
+def _int(tok, what):
+    if not re.match(rb'^[0-9]+$', tok):
+        raise Bad('%s is not an integer: %r' % (what, tok[:20]))
+    return int(tok)
+
+
+def read_pnm(data):
+    magic = data[:2]
+    if magic == b'P7':
+        return read_pam(data)
+    if magic in (b'P1', b'P4'):
+        toks, off = _pnm_tokens(data, 3)
+        w, h = _int(toks[1], 'width'), _int(toks[2], 'height')
+        body = data[off:]
+        if magic == b'P4':
+            stride = (w + 7) // 8
+            if len(body) != stride * h:
+                raise Bad('P4 raster length %d != %d' % (len(body), stride * h))
+            bits = [[(body[y * stride + x // 8] >> (7 - x % 8)) & 1 for x in range(w)] for y in range(h)]
+            for y in range(h):
+                if stride * 8 > w and body[y * stride + stride - 1] & ((1 << (stride * 8 - w)) - 1):
+                    raise Bad('P4 padding bits set in row %d' % y)
+        else:
+            vals = [c - 48 for c in body if not bytes((c,)).isspace()]
+            if any(v not in (0, 1) for v in vals):
+                raise Bad('P1 raster contains other characters')
+            if len(vals) != w * h:
+                raise Bad('P1 raster has %d pixels, header says %d' % (len(vals), w * h))
+            if max((len(l) for l in body.split(b'\n')), default=0) > max(w, 70) and w <= 70:
+                raise Bad('P1 line too long')
+            bits = [vals[y * w:(y + 1) * w] for y in range(h)]
+        px = [[(0, 0, 0, 255) if b else (255, 255, 255, 255) for b in r] for r in bits]
+        return {'w': w, 'h': h, 'px': px, 'kind': magic.decode()}
+    if magic == b'P6':
+        toks, off = _pnm_tokens(data, 4)
+        w, h, maxval = _int(toks[1], 'width'), _int(toks[2], 'height'), _int(toks[3], 'maxval')
+        if not 0 < maxval < 256:
+            raise Bad('P6 maxval %d' % maxval)
+        body = data[off:]
+        if len(body) != w * h * 3:
+            raise Bad('P6 raster length %d != %d' % (len(body), w * h * 3))
+        def sc(v):
+            if v > maxval:
+                raise Bad('sample above maxval')
+            return (v * 255 + maxval // 2) // maxval
+        px = [[tuple(sc(c) for c in body[(y * w + x) * 3:(y * w + x) * 3 + 3]) + (255,) for x in range(w)] for y in range(h)]
+        return {'w': w, 'h': h, 'px': px, 'kind': 'P6', 'maxval': maxval}
+    raise Bad('Netpbm magic %r' % magic)
+
+
+def read_pam(data):
+    if not data.startswith(b'P7\n'):
+        raise Bad('PAM magic')
+    end = data.find(b'ENDHDR\n')
+    if end < 0:
+        raise Bad('no ENDHDR')
+    f = {}
+    for line in data[3:end].split(b'\n'):
+        if not line or line.startswith(b'#'):
+            continue
+        k, _, v = line.partition(b' ')
+        if k in f and k != b'TUPLTYPE':
+            raise Bad('duplicate header ' + k.decode())
+        f[k] = v.strip()
+    for k in (b'WIDTH', b'HEIGHT', b'DEPTH', b'MAXVAL'):
+        if k not in f:
+            raise Bad('missing ' + k.decode())
+    w, h, depth, maxval = (_int(f[k], k.decode()) for k in (b'WIDTH', b'HEIGHT', b'DEPTH', b'MAXVAL'))
+    tt = f.get(b'TUPLTYPE', b'').decode()
+    need = {'BLACKANDWHITE': 1, 'GRAYSCALE': 1, 'RGB': 3, 'BLACKANDWHITE_ALPHA': 2, 'GRAYSCALE_ALPHA': 2, 'RGB_ALPHA': 4}
+    if tt not in need or need[tt] != depth:
+        raise Bad('TUPLTYPE %s with DEPTH %d' % (tt, depth))
+    if not 0 < maxval < 256 or (tt.startswith('BLACKANDWHITE') and maxval != 1):
+        raise Bad('MAXVAL %d for %s' % (maxval, tt))
+    body = data[end + 7:]
+    if len(body) != w * h * depth:
+        raise Bad('PAM raster length %d != %d' % (len(body), w * h * depth))
+
+    def sc(v):
+        if v > maxval:
+            raise Bad('sample %d above MAXVAL %d' % (v, maxval))
+        return (v * 255 + maxval // 2) // maxval
+    px = []
+    for y in range(h):
+        row = []
+        for x in range(w):
+            t = body[(y * w + x) * depth:(y * w + x + 1) * depth]
+            if depth == 1:
+                g = sc(t[0])
+                row.append((g, g, g, 255))
+            elif depth == 2:
+                g = sc(t[0])
+                row.append((g, g, g, sc(t[1])))
+            elif depth == 3:
+                row.append((sc(t[0]), sc(t[1]), sc(t[2]), 255))
+            else:
+                row.append((sc(t[0]), sc(t[1]), sc(t[2]), sc(t[3])))
+        px.append(row)
+    return {'w': w, 'h': h, 'px': px, 'kind': 'P7', 'tupltype': tt, 'maxval': maxval}
+
+
+def read_xbm(text, name='img'):
+    mw = re.search(r'^#define (\w+)_width (\d+)\s*$', text, re.M)
+    mh = re.search(r'^#define (\w+)_height (\d+)\s*$', text, re.M)
+    if not mw or not mh or mw.group(1) != mh.group(1):
+        raise Bad('XBM #define lines')
+    w, h = int(mw.group(2)), int(mh.group(2))
+    mb = re.search(r'static (?:unsigned )?char (\w+)_bits\[\] = \{(.*?)\};', text, re.S)
+    if not mb or mb.group(1) != mw.group(1):
+        raise Bad('XBM bits array')
+    items = [x.strip() for x in mb.group(2).split(',')]
+    if items and items[-1] == '':
+        items.pop()
+    vals = []
+    for it in items:
+        if not re.match(r'^0x[0-9a-fA-F]{2}$', it):
+            raise Bad('XBM item %r' % it[:12])
+        vals.append(int(it, 16))
+    stride = (w + 7) // 8
+    if len(vals) != stride * h:
+        raise Bad('XBM has %d bytes, %d expected' % (len(vals), stride * h))
+    bits = [[(vals[y * stride + x // 8] >> (x % 8)) & 1 for x in range(w)] for y in range(h)]
+    px = [[(0, 0, 0, 255) if b else (255, 255, 255, 255) for b in r] for r in bits]
+    return {'w': w, 'h': h, 'px': px, 'name': mw.group(1)}
+
+
+def read_xpm(text):
+    if not text.startswith('/* XPM */'):
+        raise Bad('XPM header comment')
+    m = re.search(r'static char \*\s*(\w+)\[\] = \{(.*)\};\s*$', text, re.S)
+    if not m:
+        raise Bad('XPM array')
+    strs = re.findall(r'"([^"]*)"', m.group(2))
+    # the strings must be separated by commas
+    if re.sub(r'"[^"]*"', 'S', m.group(2)).replace('\n', '').replace(' ', '') != ','.join('S' * len(strs)):
+        raise Bad('XPM string separators')
+    try:
+        w, h, nc, cpp = (int(x) for x in strs[0].split())
+    except Exception:  # noqa: BLE001
+        raise Bad('XPM values line %r' % strs[0][:30])
+    if cpp != 1 or len(strs) != 1 + nc + h:
+        raise Bad('XPM has %d strings, %d expected' % (len(strs), 1 + nc + h))
+    cmap = {}
+    for s in strs[1:1 + nc]:
+        mm = re.match(r'^(.) c (\S+)$', s)
+        if not mm:
+            raise Bad('XPM colour line %r' % s)
+        cmap[mm.group(1)] = mm.group(2)
+    rows = strs[1 + nc:]
+    if any(len(r) != w for r in rows):
+        raise Bad('XPM row length')
+    px = []
+    for r in rows:
+        out = []
+        for ch in r:
+            if ch not in cmap:
+                raise Bad('XPM pixel char %r undefined' % ch)
+            c = cmap[ch]
+            if c == 'None':
+                out.append((0, 0, 0, 0))
+            else:
+                if not re.match(r'^#[0-9a-fA-F]{6}$', c):
+                    raise Bad('XPM colour %r' % c)
+                out.append((int(c[1:3], 16), int(c[3:5], 16), int(c[5:7], 16), 255))
+        px.append(out)
+    return {'w': w, 'h': h, 'px': px, 'name': m.group(1)}
+
+
+def read_txt(text, dark='1', light='0'):
+    if not text.endswith('\n'):
+        raise Bad('TXT does not end with a newline')
+    rows = text[:-1].split('\n')
+    w = len(rows[0]) // max(len(dark), 1)
+    out = []
+    for r in rows:
+        line = []
+        i = 0
+        while i < len(r):
+            if r.startswith(dark, i):
+                line.append(1)
+                i += len(dark)
+            elif r.startswith(light, i):
+                line.append(0)
+                i += len(light)
+            else:
+                raise Bad('TXT character %r' % r[i])
+        out.append(line)
+    return {'w': w, 'h': len(out), 'grid': out}
+
+
+_ANSI_RUN = re.compile(r'\033\[(7|49)m((?:  )+)\033\[0m')
+
+
+def read_ansi(text):
+    if not text.endswith('\n'):
+        raise Bad('ANSI output does not end with a newline')
+    out = []
+    for r in text[:-1].split('\n'):
+        line = []
+        pos = 0
+        for m in _ANSI_RUN.finditer(r):
+            if m.start() != pos:
+                raise Bad('ANSI junk %r' % r[pos:m.start()][:20])
+            line += [0 if m.group(1) == '7' else 1] * (len(m.group(2)) // 2)
+            pos = m.end()
+        if pos != len(r):
+            raise Bad('ANSI junk at end of line %r' % r[pos:][:20])
+        out.append(line)
+    return {'w': len(out[0]) if out else 0, 'h': len(out), 'grid': out}
+
+
+def read_compact(text):
+    if not text.endswith('\n'):
+        raise Bad('compact output does not end with a newline')
+    inv = {' ': (1, 1), '▀': (0, 1), '▄': (1, 0), '█': (0, 0)}
+    out = []
+    for r in text[:-1].split('\n'):
+        try:
+            out.append([inv[c][0] for c in r])
+            out.append([inv[c][1] for c in r])
+        except KeyError as ex:
+            raise Bad('compact character %r' % ex.args[0])
+    return {'w': len(out[0]) if out else 0, 'h': len(out), 'grid': out}
